@@ -1,5 +1,6 @@
 import Driver.Common
 import LiskVerif.Gen.Fns
+import LiskVerif.Gen.Fns2
 
 namespace Driver.Fns
 open LiskVerif LiskVerif.Gen
@@ -61,6 +62,39 @@ def step (_ : Unit) (w : List String) : Unit × String :=
                         receivedLastBlockWithinForgingSlot := recvLastIn }
         s!"{fcIsIdenticalBlock c} {fcIsValidBlock c} {fcIsDoubleForging c} {fcIsTieBreak c} {fcIsDifferentChain c} {classify c}"
       | _, _ => "bad-op"
+    -- the slot calculator: constructor + GetSlotNumber + GetSlotTime, all regenerated (Gen/Fns2.lean)
+    | ["slot", g, bt, t] =>
+      match natArg g, natArg bt, natArg t with
+      | some g, some bt, some t =>
+        match newBlockSlotGenesis g bt, newBlockSlotBlockTime g bt with
+        | some g', some bt' =>
+          let n := getSlotNumber t g' bt'
+          s!"{n} {getSlotTime n g' bt'}"
+        | _, _ => "panic"
+      | _, _, _ => "bad-op"
+    | ["slott", g, bt, k] =>
+      match natArg g, natArg bt, k.toInt? with
+      | some g, some bt, some k =>
+        match newBlockSlotGenesis g bt, newBlockSlotBlockTime g bt with
+        | some g', some bt' => s!"{getSlotTime k g' bt'}"
+        | _, _ => "panic"
+      | _, _, _ => "bad-op"
+    -- fork choice with explicit unix times: header timestamps, receive time of the tip (or nil) and of the block
+    | "fct" :: g :: bt :: rest =>
+      if rest.length != 14 then "bad-op" else
+      match natArg g, natArg bt, mkHdr (rest.take 6), mkHdr ((rest.drop 6).take 6), natArg (rest.getD 13 "") with
+      | some g, some bt, some last, some cur, some recvCur =>
+        let recvLast := rest.getD 12 "nil"
+        match newBlockSlotGenesis g bt, newBlockSlotBlockTime g bt with
+        | some g', some bt' =>
+          let c : FC := { lastHeader := last, currentHeader := cur,
+                          slot := { getSlotNumber := fun t => getSlotNumber t g' bt' },
+                          receivedBlockWithinForgingSlot := fcReceivedBlockWithinForgingSlot recvCur cur.timestamp g' bt',
+                          receivedLastBlockWithinForgingSlot :=
+                            fcReceivedLastBlockWithinForgingSlot (recvLast == "nil") ((recvLast.toNat?).getD 0) last.timestamp g' bt' }
+          s!"{fcIsIdenticalBlock c} {fcIsValidBlock c} {fcIsDoubleForging c} {fcIsTieBreak c} {fcIsDifferentChain c} {classify c}"
+        | _, _ => "panic"
+      | _, _, _, _, _ => "bad-op"
     | _ => "bad-op"
   ((), r)
 
